@@ -87,6 +87,9 @@ def build_tree(src: dict, key_size: int) -> dict:
     # Convert map keys
     tree = {}
     for key in src:
+        if key < 0 or key.bit_length() > key_size:
+            # also reached through HashMap(map_=...), HashMap.map and serialize_dict, which bypass HashMap.set
+            raise ValueError(f'dictionary key {key} does not fit {key_size} bits')
         padded = pad(bin(key)[2:], key_size)
         tree[padded] = src[key]
 
